@@ -82,12 +82,13 @@ def contracts():
             raises={"ValueError": {"when": f"strip({first}) == ''", "exact": True}},
             inline=["Qualified.qualifiers.setter"], callee_variants={"Matchable.__init__": "named"}, class_fields=CF, macros=MACROS, returns="none", native=NATIVE,
             property_clauses={k: "C17" for k in named}))
-    cs.append(Contract(
-        target=f"{PROD}/term.py::Term.__init__", variant="literal",
-        types={"matcher": "obj:Matcher", "value": "val", "name": "none"}, requires=["implies(tag(value, 'str'), '\"' not in value)"], modifies=init_mod,
-        ensures={"holds_the_literal_as_written": "same(self.value, value)", "belongs_to_the_matcher": "self.matcher is matcher", "no_name": "self.name is None"},
-        callee_variants={"Matchable.__init__": "unnamed"}, class_fields=CF, macros=MACROS, returns="none", native=NATIVE,
-        property_clauses={"holds_the_literal_as_written": "C17"}))
+    for variant, vtyp, req in (("string_literal", "str", ["'\"' not in value"]), ("number_literal", "num", [])):
+        cs.append(Contract(
+            target=f"{PROD}/term.py::Term.__init__", variant=variant,
+            types={"matcher": "obj:Matcher", "value": vtyp, "name": "none"}, requires=req, modifies=init_mod,
+            ensures={"holds_the_literal_as_written": "same(self.value, value)", "belongs_to_the_matcher": "self.matcher is matcher", "no_name": "self.name is None"},
+            callee_variants={"Matchable.__init__": "unnamed"}, class_fields=CF, macros=MACROS, returns="none", native=NATIVE,
+            property_clauses={"holds_the_literal_as_written": "C17"}))
     # ---- the transformer's token callbacks: literal values and names as written
     tok = {"token": "obj", "token.value": "str", "self.matcher": "obj:Matcher"}
     cs.append(Contract(
@@ -96,7 +97,7 @@ def contracts():
         ensures={"the_text_between_the_quotes": "result.value == token.value[1:len(token.value) - 1]", "is_a_term": "isinstance(result, Term)",
                  "belongs_to_the_matcher": "result.matcher is self.matcher"},
         covers={"empty_string_literal": "result.value == ''", "keeps_inner_spaces": "result.value == ' a  b '"},
-        callee_variants={"Term.__init__": "literal"}, class_fields=CF, macros=MACROS, returns="obj:Term", native=NATIVE,
+        callee_variants={"Term.__init__": "string_literal"}, class_fields=CF, macros=MACROS, returns="obj:Term", native=NATIVE,
         property_clauses={"the_text_between_the_quotes": "C17"}))
     cs.append(Contract(
         target=f"{LT}::LarkTransformer.SIGNED_NUMBER", types=tok,
@@ -105,7 +106,7 @@ def contracts():
                  "is_a_term": "isinstance(result, Term)"},
         raises={"ValueError": {"when": "True", "exact": False}},
         covers={"negative": "result.value == -12", "plain": "result.value == 7"},
-        callee_variants={"Term.__init__": "literal"}, class_fields=CF, macros=MACROS, returns="obj:Term", native={"examples": [{"token.value": "5.0"}, {"token.value": "-12"}, {"token.value": "3.25"}, {"token.value": "12345678901234567890"}, {"token.value": "+7"}]},
+        callee_variants={"Term.__init__": "number_literal"}, class_fields=CF, macros=MACROS, returns="obj:Term", native={"examples": [{"token.value": "5.0"}, {"token.value": "-12"}, {"token.value": "3.25"}, {"token.value": "12345678901234567890"}, {"token.value": "+7"}]},
         property_clauses={"an_integer_literal_is_that_int": "C17", "a_decimal_literal_is_a_float": "C17"}))
     n = "token.value[1:]"
     tfirst = f"({n} if '.' not in {n} else {n}[0:{n}.find('.')])"
